@@ -116,6 +116,10 @@ def regenerated(cfg):
             gl = open(os.path.join(COQ, "gen", "GenLocks.v")).read()
             n = len(re.findall(r'^\s*\[?\("lk_\w+", lk_\w+\)', gl, re.M))
             out.append("lock/channel skeletons of %d functions of the core packages (coq/gen/GenLocks.v)" % n)
+        if cfg.get("guarded_by"):
+            gg = open(os.path.join(COQ, "gen", "GenGuard.v")).read()
+            n = len(re.findall(r'^\s*\[?\("gb_\w+", gb_\w+\)', gg, re.M))
+            out.append("lock + shared-variable access skeletons of %d functions of the core packages (coq/gen/GenGuard.v); rules %s* of proofs/GenGuardCheck.v" % (n, cfg["guarded_by"]))
         if cfg.get("call_order"):
             go = open(os.path.join(COQ, "gen", "GenOrder.v")).read()
             n = len(re.findall(r'^\s*\[?\("co_\w+", co_\w+\)', go, re.M))
@@ -146,6 +150,38 @@ def order_report(prefix):
         if m.group(1).startswith(prefix):
             items.append({"rule": m.group(1), "problems": m.group(2).strip()})
     return items, ""
+
+
+def guard_report(prefix):
+    """The guarded-by obligations (proofs/GenGuardCheck.v: gb_rules) evaluated on the regenerated skeletons
+    (coq/gen/GenGuard.v): rules of this property with functions that touch the variable without holding its lock."""
+    rc, out, _ = sh([os.path.join(V, "lib", "coqbuild.py"), "proofs/GenGuardCheck.vo"], timeout=900)
+    if rc != 0:
+        return [], "GenGuardCheck does not build: " + out[-600:]
+    d = os.path.join(V, "work", "lockreport")
+    os.makedirs(d, exist_ok=True)
+    f = os.path.join(d, "guard_%d.v" % os.getpid())
+    open(f, "w").write("From Coq Require Import String List.\nImport ListNotations.\nFrom SigP Require Import GenGuardCheck.\nOpen Scope string_scope.\n"
+                       "Definition R := Eval vm_compute in gb_report.\nPrint R.\n")
+    rc, out, _ = sh(["coqc", "-Q", os.path.join(COQ, "model"), "SigM", "-Q", os.path.join(COQ, "proofs"), "SigP",
+                     "-Q", os.path.join(COQ, "gen"), "SigG", f], timeout=600, cwd=d)
+    if rc != 0:
+        return [], "guarded-by report did not evaluate: " + out[-600:]
+    body = " ".join(out.split())
+    items = []
+    for m in re.finditer(r'\("([^"]+)",\s*(None|Some\s*\[([^\]]*)\])\)', body):
+        if m.group(1).startswith(prefix):
+            fns = [x.strip().strip('"') for x in (m.group(3) or "").split(";") if x.strip()]
+            items.append({"rule": m.group(1), "functions": fns, "missing": m.group(2) == "None"})
+    return items, ""
+
+
+def guard_rules():
+    try:
+        t = open(os.path.join(COQ, "proofs", "GenGuardCheck.v")).read()
+    except OSError:
+        return {}
+    return {m.group(1): (m.group(2), m.group(3)) for m in re.finditer(r'mkG "([^"]+)"\s*"([^"]+)"\s*"([^"]+)"', t)}
 
 
 def order_rules():
@@ -302,6 +338,20 @@ def main(REG):
             problems.append({"kind": "call-order", "what": "call-order obligation %s no longer holds on the skeleton of %s regenerated from the source: "
                              "a path exists on which %s is called without an earlier call of %s (or one of the calls / the function is gone): %s" % (
                                  it["rule"], root.replace("co_", ""), second, first, it["problems"]), **it})
+    if cfg.get("guarded_by"):
+        # which shared variables of this property are touched without their lock on the regenerated skeletons
+        items, gerr = guard_report(cfg["guarded_by"])
+        if gerr:
+            problems.append({"kind": "guarded-by", "what": gerr})
+        gr = guard_rules()
+        for it in items[:8]:
+            var, lock = gr.get(it["rule"], ("?", "?"))
+            if it["missing"]:
+                what = "guarded-by obligation %s: the variable %s or the lock %s no longer exists in the regenerated skeletons (renamed or removed)" % (it["rule"], var, lock)
+            else:
+                what = "guarded-by obligation %s no longer holds: the skeleton regenerated from the source of %s has a path on which %s is read or written while the goroutine does not hold %s" % (
+                    it["rule"], ", ".join(x.replace("gb_", "") for x in it["functions"][:6]), var, lock)
+            problems.append({"kind": "guarded-by", "what": what, **it})
     allowed_axioms = set(cfg.get("allowed_axioms", []))
     extra_ax = [x for x in pr.get("axioms", []) if x not in allowed_axioms]
     if extra_ax:
